@@ -3,7 +3,7 @@
    Model: Expire/Model.v (policy Compact = value header / wait_compact).  [ts] = timestamp of the raft entry,
    [now] = read clock.  Traces: OW ts c (write), OR now t k (typed read), OC csec chosen (a compaction run with
    clock csec that drops the items of [chosen] which the filter predicate [removable] allows). *)
-From ZV Require Import Common.Bytes Expire.Consts Expire.Model Expire.Proofs Expire.ProofsRel Expire.ProofsCmd Expire.ProofsTrace.
+From ZV Require Import Common.Bytes Expire.Consts Expire.Model Expire.Proofs Expire.ProofsRel Expire.ProofsCmd Expire.ProofsTrace Expire.ProofsMore Expire.ProofsClass Expire.ProofsLocal.
 Open Scope Z_scope.
 
 (* ---- (1) the expiry decision, second granularity, placements before / exactly at / after the expiry second ---- *)
@@ -43,13 +43,18 @@ Print Assumptions C10_ttl_remaining_seconds.
    A key whose header is expired at the command's timestamp is indistinguishable from an absent key: every command
    (DEL excepted: open finding) gives the same reply as on the store from which the key's header entry was erased
    - a read-modify-write starts from empty - and the two resulting stores answer every later trace alike. *)
-Theorem C10_expired_like_absent_step : forall s ts c t k h,
+Theorem C10_expired_like_absent_step_partial : forall s ts c t k h,
   Inv s -> ts <> 0 -> is_del c = false -> hdr_of s t k = Some h -> is_expired Compact h ts = true ->
   snd (step Compact s ts c) = snd (step Compact (erase s t k) ts c) /\
   forall ops, Forall (op_ok (sec ts) 0) ops ->
     run (fst (step Compact s ts c)) ops = run (fst (step Compact (erase s t k) ts c)) ops.
 Proof. exact expired_like_absent_step. Qed.
-Print Assumptions C10_expired_like_absent_step.
+Print Assumptions C10_expired_like_absent_step_partial.
+(* full statement (no exclusion of DEL): false of the faithful model and of the code (corpus/C10/f6-del-expired.tsv) *)
+Definition C10_expired_like_absent_full : Prop := expired_like_absent_full.
+Theorem C10_expired_like_absent_full_refuted : ~ C10_expired_like_absent_full.
+Proof. exact expired_like_absent_full_refuted. Qed.
+Print Assumptions C10_expired_like_absent_full_refuted.
 Theorem C10_expired_like_absent_trace : forall T s t k h ops,
   Inv s -> hdr_of s t k = Some h -> hdead T h -> Forall (op_ok T 0) ops -> run s ops = run (erase s t k) ops.
 Proof. exact expired_like_absent_trace. Qed.
@@ -68,9 +73,19 @@ Print Assumptions C10_dead_content_noninterference.
 (* ---- (4) background compaction is invisible, for all traces and all interleavings ----
    [wf]: timestamps non-zero, no DEL, after a compaction with clock csec no later time is more than the lazy
    threshold behind csec and no later write re-uses the generation number of a dropped element. *)
-Theorem C10_bg_step_invisible : forall ops s, Inv s -> wf ops -> run s ops = run s (strip ops).
+Theorem C10_bg_step_invisible_partial : forall ops s, Inv s -> wf ops -> run s ops = run s (strip ops).
 Proof. exact bg_invisible. Qed.
-Print Assumptions C10_bg_step_invisible.
+Print Assumptions C10_bg_step_invisible_partial.
+(* full statement ([wf_weak]: DEL allowed, generation numbers may repeat): false of the faithful model and of the code *)
+Definition C10_bg_step_invisible_full : Prop := bg_invisible_full.
+Theorem C10_bg_step_invisible_full_refuted : ~ C10_bg_step_invisible_full.
+Proof. exact bg_invisible_full_refuted. Qed.
+Print Assumptions C10_bg_step_invisible_full_refuted.
+Theorem C10_bg_needs_fresh_generations_refuted :
+  wf_weak w_gen_ops /\ Forall (fun o => match o with OW _ c => is_del c = false | _ => True end) w_gen_ops /\
+  run empty_store w_gen_ops <> run empty_store (strip w_gen_ops).
+Proof. exact bg_invisible_needs_fresh_generations. Qed.
+Print Assumptions C10_bg_needs_fresh_generations_refuted.
 (* what the filter allows to drop: only entries expired for longer than the lazy threshold, and element keys that
    do not belong to the live generation of their collection *)
 Theorem C10_filter_drops_only_garbage : forall s csec it,
@@ -81,6 +96,72 @@ Print Assumptions C10_filter_drops_only_garbage.
 Theorem C10_invariant_reachable : forall ops, writes_pos ops -> Inv (final empty_store ops).
 Proof. intros ops W. exact (Inv_final ops empty_store Inv_empty W). Qed.
 Print Assumptions C10_invariant_reachable.
+
+(* ---- (5) no resurrection: a collection re-created (hset/hmset/hincrby/sadd/zadd/zincrby) over an expired or cleared
+   predecessor gets generation ts and an empty expiry, and its generation holds only members written by that command,
+   provided no element of generation ts existed before (fresh generation number) ---- *)
+Theorem C10_no_resurrection_partial : forall s ts c t k written,
+  creates c = Some (t, k, written) -> noe ts s t k -> fresh_gen s t k ts ->
+  (forall sb x, el_get (fst (step Compact s ts c)) t k ts sb = Some x -> In sb written) /\
+  (forall m, meta_get (fst (step Compact s ts c)) t k = Some m -> m_hdr m = mkH 0 ts \/ meta_get s t k = Some m).
+Proof. exact recreated_only_written. Qed.
+Print Assumptions C10_no_resurrection_partial.
+(* without the freshness hypothesis: false (equal timestamps; corpus/C10/f3-generation-collision.tsv) *)
+Definition C10_no_resurrection_full : Prop := no_resurrection_full.
+Theorem C10_no_resurrection_full_refuted : ~ C10_no_resurrection_full.
+Proof. exact no_resurrection_full_refuted. Qed.
+Print Assumptions C10_no_resurrection_full_refuted.
+
+(* ---- (6) which commands keep / clear / set the expiry ---- *)
+(* a modifying command (INCRBY, APPEND, SETRANGE, SETNX on a live key, HSET, HMSET, HDEL, HINCRBY, SADD, SREM, SPOP, ZADD,
+   ZINCRBY, ZREM, ZREMRANGEBYSCORE, LPUSH/RPUSH, LPOP/RPOP) on a live key keeps its header: expiry and generation *)
+Theorem C10_modify_keeps_expiry : forall s ts c t k h h',
+  modifies c = Some (t, k) -> hdr_of s t k = Some h -> is_expired Compact h ts = false ->
+  hdr_of (fst (step Compact s ts c)) t k = Some h' -> h' = h.
+Proof. exact modify_keeps_header. Qed.
+Print Assumptions C10_modify_keeps_expiry.
+(* overwriting the whole value (SET, GETSET, MSET, successful SETNX) stores a fresh header: no expiry *)
+Theorem C10_set_clears_expiry : forall s ts k v, kv_get (fst (step Compact s ts (CSet k v))) k = Some (fresh_hdr, v).
+Proof. exact set_clears_expiry. Qed.
+Print Assumptions C10_set_clears_expiry.
+Theorem C10_getset_clears_expiry : forall s ts k v, kv_get (fst (step Compact s ts (CGetSet k v))) k = Some (fresh_hdr, v).
+Proof. exact getset_clears_expiry. Qed.
+Print Assumptions C10_getset_clears_expiry.
+Theorem C10_mset_clears_expiry : forall s ts kvl k, In k (map fst kvl) ->
+  exists v, kv_get (fst (step Compact s ts (CMSet kvl))) k = Some (fresh_hdr, v).
+Proof. exact mset_clears_expiry. Qed.
+Print Assumptions C10_mset_clears_expiry.
+Theorem C10_setnx_success_clears_expiry : forall s ts k v,
+  snd (step Compact s ts (CSetNx k v)) = RInt 1 -> kv_get (fst (step Compact s ts (CSetNx k v))) k = Some (fresh_hdr, v).
+Proof. exact setnx_success_clears_expiry. Qed.
+Print Assumptions C10_setnx_success_clears_expiry.
+(* SETEX / *EXPIRE set ExpireAt = floor(ts / 1e9) + duration (in the uint32 range), *PERSIST clears it; generation kept *)
+Theorem C10_setex_sets_expiry : forall s ts k d v, 0 < d -> 0 <= d + sec ts < max_u32 - 1 ->
+  kv_get (fst (step Compact s ts (CSetEx k d v))) k = Some (mkH (d + sec ts) 0, v).
+Proof. exact setex_sets_expiry. Qed.
+Print Assumptions C10_setex_sets_expiry.
+Theorem C10_expire_sets_expiry : forall s ts t k d h, hdr_of s t k = Some h -> is_expired Compact h ts = false ->
+  0 <= d + sec ts < max_u32 - 1 ->
+  hdr_of (fst (step Compact s ts (CExpire t k d))) t k = Some (mkH (d + sec ts) (h_ver h)) /\
+  snd (step Compact s ts (CExpire t k d)) = RInt 1.
+Proof. exact expire_sets_expiry. Qed.
+Print Assumptions C10_expire_sets_expiry.
+Theorem C10_persist_clears_expiry : forall s ts t k h, hdr_of s t k = Some h -> is_expired Compact h ts = false ->
+  hdr_of (fst (step Compact s ts (CPersist t k))) t k = Some (mkH 0 (h_ver h)) /\
+  snd (step Compact s ts (CPersist t k)) = RInt 1.
+Proof. exact persist_clears_expiry. Qed.
+Print Assumptions C10_persist_clears_expiry.
+
+(* ---- (7) local-deletion policy: for every store, every scan time and every key, a tick of the background deleter
+   leaves a key without an index entry in [0, scan] exactly as it was (nothing is removed before the time it was given) ---- *)
+Theorem C10_local_deletion_never_early : forall s scan t k now,
+  (forall w, In ((w, t, k), tt) (tidx s) -> scan < w) ->
+  read Local (local_tick s scan) now t k = read Local s now t k.
+Proof. exact local_tick_future_untouched. Qed.
+Print Assumptions C10_local_deletion_never_early.
+Theorem C10_local_deletion_only_due : forall s scan t k, ~ has_due s scan t k -> same_for s (local_tick s scan) t k.
+Proof. exact local_tick_safe. Qed.
+Print Assumptions C10_local_deletion_only_due.
 
 (* ---- non-vacuity ---- *)
 (* SETEX k 10 v at second 100: live 1 ns before second 110, absent at it *)
@@ -106,3 +187,9 @@ Example C10_ex_bg :
   wf ops /\ run empty_store ops = run empty_store (strip ops) /\
   elems (final empty_store ops) <> elems (final empty_store (strip ops)).
 Proof. vm_compute. repeat split; auto; try discriminate; repeat constructor; try discriminate. Qed.
+(* local deletion: SETEX k 10 at second 100 records index entry 110; a tick at 109 leaves the key, a tick at 110 removes it *)
+Example C10_ex_local :
+  let s := fst (step Local empty_store (100 * ns_per_sec) (CSetEx [1%N] 10 [7%N])) in
+  tidx s = [((110, TK, [1%N]), tt)] /\
+  o_exists (read Local (local_tick s 109) 0 TK [1%N]) = true /\ o_exists (read Local (local_tick s 110) 0 TK [1%N]) = false.
+Proof. vm_compute. auto. Qed.
